@@ -1211,6 +1211,19 @@ class X:
         if fn == 'zeros_like':
             v = args[0]
             return Arr(v.shape, lambda *i: 0, v.dtype, 'fresh')
+        if fn == 'clip' and len(args) == 3:
+            lo, hi = args[1], args[2]
+
+            def k(x, lo=lo, hi=hi):
+                r = x
+                if not isinstance(lo, NoneV):
+                    r = ite(num2(r, lo, lambda a_, b_: a_ < b_), lo, r)
+                if not isinstance(hi, NoneV):
+                    r = ite(num2(r, hi, lambda a_, b_: a_ > b_), hi, r)
+                return r
+            if isinstance(args[0], Arr):
+                return self.lift(k, args[0], dtype=args[0].dtype)
+            return k(args[0])
         if fn in ('floor', 'ceil'):
             v = args[0]
             if isinstance(v, Arr):
